@@ -60,7 +60,10 @@ func (db *DB) checkAndCleanFiles() error {
 		keep := true
 		switch fd.Type {
 		case storage.TypeManifest:
-			keep = fd.Num >= db.s.manifestFd.Num
+			// Only the current manifest is live. A manifest with a larger
+			// number is the leftover of a rotation that crashed before the
+			// CURRENT pointer was switched.
+			keep = fd.Num == db.s.manifestFd.Num
 		case storage.TypeJournal:
 			if !db.frozenJournalFd.Zero() {
 				keep = fd.Num >= db.frozenJournalFd.Num
